@@ -17,7 +17,7 @@ FLOORS = {"had_failure": 0.1, "multi_pool": 0.3, "single_op_mode": 0.2}
 
 
 def plan(tier):
-    return [{"kind": "hypothesis", "examples": 2000 if tier == "quick" else 60000}]
+    return [{"kind": "hypothesis", "examples": 2000 if tier == "quick" else 40000}]
 
 
 @st.composite
